@@ -5,7 +5,7 @@ namespace MW.Lemmas.ApiSafe
 open MW.Model.Api
 
 set_option maxHeartbeats 100000000 in
-theorem closed_AmountToString_wm : ∃ body m, prog Fn.AmountToString_wm = some body ∧ (check prog exports imports closed m [] body).isSome = true :=
+theorem closed_AmountToString_wm : ∃ body m, prog Fn.AmountToString_common = some body ∧ (check prog exports imports closed m [] body).isSome = true :=
   ⟨f_AmountToString, checkFuel, rfl, by decide +kernel⟩
 
 set_option maxHeartbeats 100000000 in
@@ -13,15 +13,15 @@ theorem closed_AutoCreateRawTransaction : ∃ body m, prog Fn.AutoCreateRawTrans
   ⟨f_AutoCreateRawTransaction, checkFuel, rfl, by decide +kernel⟩
 
 set_option maxHeartbeats 100000000 in
-theorem closed_CreateBindingTransaction : ∃ body m, prog Fn.CreateBindingTransaction = some body ∧ (check prog exports imports closed m [] body).isSome = true :=
+theorem closed_CreateBindingTransaction : ∃ body m, prog Fn.CreateBindingTransaction_wallet = some body ∧ (check prog exports imports closed m [] body).isSome = true :=
   ⟨f_CreateBindingTransaction, checkFuel, rfl, by decide +kernel⟩
 
 set_option maxHeartbeats 100000000 in
-theorem closed_CreateWallet : ∃ body m, prog Fn.CreateWallet = some body ∧ (check prog exports imports closed m [] body).isSome = true :=
+theorem closed_CreateWallet : ∃ body m, prog Fn.CreateWallet_wallet = some body ∧ (check prog exports imports closed m [] body).isSome = true :=
   ⟨f_CreateWallet, checkFuel, rfl, by decide +kernel⟩
 
 set_option maxHeartbeats 100000000 in
-theorem closed_RemoveWallet : ∃ body m, prog Fn.RemoveWallet = some body ∧ (check prog exports imports closed m [] body).isSome = true :=
+theorem closed_RemoveWallet : ∃ body m, prog Fn.RemoveWallet_wallet = some body ∧ (check prog exports imports closed m [] body).isSome = true :=
   ⟨f_RemoveWallet, checkFuel, rfl, by decide +kernel⟩
 
 set_option maxHeartbeats 100000000 in
@@ -74,7 +74,7 @@ set_option maxHeartbeats 100000000 in
 theorem safe_GetWalletMnemonic : safe prog exports imports closed checkFuel (.invoke Fn.GetWalletMnemonic) = true := by decide +kernel
 
 set_option maxHeartbeats 100000000 in
-theorem safe_Start_wm : safe prog exports imports closed checkFuel (.invoke Fn.Start_wm) = true := by decide +kernel
+theorem safe_Start_wm : safe prog exports imports closed checkFuel (.invoke Fn.Start_wallet) = true := by decide +kernel
 
 set_option maxHeartbeats 100000000 in
 theorem safe_ValidateAddress : safe prog exports imports closed checkFuel (.invoke Fn.ValidateAddress) = true := by decide +kernel
